@@ -90,6 +90,17 @@ def build_table(rec):
     return df
 
 
+def build_pair(case):
+    """(L, R) DataFrames of a case.  A right table record flagged `same_object` (self-join)
+    that still describes the same table as the left record yields the very same object."""
+    L = build_table(case["L"])
+    lr, rr = case["L"], case["R"]
+    if (rr.get("same_object") or lr.get("same_object")) and \
+            dumps([lr["columns"], lr.get("index")]) == dumps([rr["columns"], rr.get("index")]):
+        return L, L
+    return L, build_table(case["R"])
+
+
 def table_column(rec, name):
     for c in rec["columns"]:
         if c["name"] == name:
